@@ -1,5 +1,5 @@
 CONSTANTS Keys = {"a", "b"}
-          NHol = 4
+          NHol = 3
           NWk = 3
           Rich = TRUE
           MaxObj = 2
